@@ -18,6 +18,17 @@ theorem C09_gen_scan_gates :
     ObsTables.folderCacheUpdated = true := by
   decide
 
+theorem describedOp_eq_specOp (s : SoftwareT) : describedOp s = specOp s := by
+  unfold describedOp specOp
+  by_cases h1 : s.idleFtp = true <;> by_cases h2 : s.op = 1 <;> simp [h1, h2]
+
+/-- the one `describe_state` override of an observed key: idle FTP services are described as STOPPED -/
+theorem C09_gen_ftp_override :
+    ObsTables.ftpIdleOverride = ("RUNNING", "STOPPED") ∧ ObsEnums.ServiceOperatingState.T.RUNNING.value = 1 ∧
+    ObsEnums.ServiceOperatingState.T.STOPPED.value = 2 ∧
+    ObsTables.observedKeysOverriddenIn = ["simulator/system/services/ftp/ftp_service.py"] := by
+  decide
+
 /-! ### dictionary comprehension keyed by name = "find the object with that name" -/
 
 theorem lookupS_map {α β} (name : α → String) (f : α → β) (k : String) (l : List α) :
@@ -62,7 +73,7 @@ theorem C09_service_eq_spec (o : ServiceObs) (t : Truth) : o.val (describe t) = 
       rw [show n.services.map describeSoftware = n.services.map (fun x => (x.name, (describeSoftware x).2)) from rfl, lookupS_map]
       cases n.services.find? (fun x => x.name = s) with
       | none => rfl
-      | some sv => rfl
+      | some sv => simp only [Option.map_some, describeSoftware, describedOp_eq_specOp]; rfl
 
 theorem C09_application_eq_spec (o : AppObs) (t : Truth) : o.val (describe t) = o.spec t := by
   unfold AppObs.val AppObs.find AppObs.spec
@@ -78,7 +89,7 @@ theorem C09_application_eq_spec (o : AppObs) (t : Truth) : o.val (describe t) = 
       rw [show n.apps.map describeSoftware = n.apps.map (fun x => (x.name, (describeSoftware x).2)) from rfl, lookupS_map]
       cases n.apps.find? (fun x => x.name = s) with
       | none => rfl
-      | some sv => rfl
+      | some sv => simp only [Option.map_some, describeSoftware, describedOp_eq_specOp]; rfl
 
 theorem folder_find_describe (o : FolderObs) (t : Truth) :
     o.find (describe t) = match o.wh with
